@@ -320,8 +320,14 @@ class ListingBase(Machine):
         and moves about in it: readers must not share state."""
         cat = catalogue(self.tier)
         mine = (self.rel or '').split('/')[0]
-        cand = [f for f in cat if f.split('/')[0] != mine and len(image(f)) < 450000] or cat
-        rel = cand[c % len(cand)]
+        if c % 2:
+            # same simulator family, another file (same column names, another layout)
+            cand = [f for f in cat if f.split('/')[0] == mine and f != self.rel and
+                    len(image(f)) < 450000]
+        else:
+            cand = [f for f in cat if f.split('/')[0] != mine and len(image(f)) < 450000]
+        cand = cand or cat
+        rel = cand[(c // 2) % len(cand)]
         fs = self.ctx.fs
         fs.begin_op(None)
         data = image(rel)
@@ -808,6 +814,17 @@ class HistoryMachine(ListingBase):
         before = self.snap(lst)
         tabs = tuple(o[0] for o in oracle)
         self._cur_tables = tabs
+        for o_ in getattr(self, 'others', [])[-1:]:
+            # another reader in the same program is asked for the same selection first
+            ctx.fs.begin_op(self.op_budget * 4)
+            try:
+                o_.history(arg, short=short)
+                ctx.probes['same_selection_on_second_reader'] += 1
+            except SimBudgetExceeded as e:
+                raise Violation('LIVE', 'history(%r) on a second reader did not finish (%s)'
+                                % (arg, e))
+            except Exception:
+                pass              # the selection need not be valid there
         res = self.guarded(lambda: lst.history(arg, short=short), what)
         ctx.stats['op_HISTORY'] += 1
         ctx.state_changes += 1
@@ -1386,5 +1403,18 @@ class TableMachine(ListingBase):
                                           for c in t.column_name):
                         raise Violation('P6', '%s table %s: reversed key %r does not give the '
                                         'negated row' % (self.rel, name, key[::-1]))
+        if n > 1:
+            # ... and again after moving: the three ways of addressing must follow the move
+            i2 = (i + 1 + ch[1] % (n - 1)) % n
+            self.position(lst, i2, n, ch[0])
+            for name in lst._tablenames:
+                t = lst._table[name]
+                for ci, col in enumerate(t.column_name):
+                    a = np.asarray(t[col])
+                    b = t._data[:, ci]
+                    if a.shape != b.shape or not np.array_equal(a, b, equal_nan=True):
+                        raise Violation('P6', '%s table %s: column %r fetched by name after moving '
+                                        'from result set %d to %d is not the column the table '
+                                        'holds' % (self.rel, name, col, i, i2))
         lst.close()
         return i > 0
